@@ -14,7 +14,7 @@
 (*   field[n,omit,c] time[b,off,zero] nullint/nullbool/nullfloat/          *)
 (*   nullstring/nulltime[valid,c]                                          *)
 (***************************************************************************)
-EXTENDS AvroWire
+EXTENDS AvroWire, TimeParse
 
 NullKinds == {"nullint", "nullbool", "nullfloat", "nullstring", "nulltime"}
 
@@ -56,6 +56,36 @@ EitherBranch(g, omit) == \/ (g.k = "time" /\ g.zero)
                          \/ (omit /\ g.k \in {"f32", "f64"} /\ FloatZeroish(g.b))
 MustNonNull(g, omit) == ~MustNull(g, omit) /\ ~EitherBranch(g, omit)
 
+(* ---------------- time.Time against string / date / timestamp schemas ----------------- *)
+(* time nodes carry the civil fields in their own zone (y mo d h mi s ns off), and the    *)
+(* instant as days = floor(unix / 86400), sod = second of that day, ns.                   *)
+UnitOf(lt) == CASE lt = "timestamp-millis" -> "ms" [] lt = "timestamp-micros" -> "us" [] OTHER -> "ns"   \* plain long: the library's nanosecond convention
+PerSec(u)  == CASE u = "ms" -> 1000 [] u = "us" -> 1000000 [] OTHER -> 1000000000
+MulUnit(a, u) == CASE u = "ms" -> MulSmall(a, 1000) [] u = "us" -> MulSmall(a, 1000000) [] OTHER -> MulSmall(MulSmall(MulSmall(a, 1000), 1000), 1000)
+\* floor(instant / unit) as an 8-byte two's-complement long, or <<>> when it does not fit
+StoredFloor(g, u) ==
+  LET fu == g.ns \div (1000000000 \div PerSec(u)) IN
+  IF g.days >= 0 THEN
+       LET v == AddBig(MulUnit(AddBig(MulSmall(Small(g.days), 86400), Small(g.sod)), u), Small(fu)) IN IF FitsPos63(v) THEN Low8(v) ELSE <<>>
+  ELSE LET m == SubBig(MulUnit(SubBig(MulSmall(Small(-g.days), 86400), Small(g.sod)), u), Small(fu)) IN
+       IF m[9] = 0 /\ m[10] = 0 /\ (m[8] < 128 \/ (m[8] = 128 /\ \A i \in 1..7 : m[i] = 0)) THEN Neg8(m) ELSE <<>>
+ExactIn(g, u) == g.ns % (1000000000 \div PerSec(u)) = 0
+Plus1(b8) == SubSeq(AddBig(b8 \o <<0, 0>>, Small(1)), 1, 8)
+
+RepTime(s, d, g, dir) ==
+  CASE s.k = "string" -> d.k = "string" /\ SameCivil(ParseRFC3339(d.b), g)
+    [] s.k = "int" /\ s.lt = "date" ->
+         /\ d.k = "long"
+         /\ IF g.sod = 0 /\ g.ns = 0 THEN d.b = IntBytes8(g.days) /\ (dir = "r" => g.off = 0)
+            ELSE dir = "w" /\ d.b \in {IntBytes8(g.days), IntBytes8(g.days + 1)}       \* not a whole day: floor or truncation toward zero
+    [] s.k = "long" ->
+         LET u == UnitOf(s.lt)
+             f == StoredFloor(g, u) IN
+         /\ d.k = "long" /\ f # <<>>
+         /\ IF ExactIn(g, u) THEN d.b = f /\ (dir = "r" => g.off = 0)
+            ELSE dir = "w" /\ d.b \in {f, Plus1(f)}
+    [] OTHER -> FALSE
+
 RECURSIVE Rep(_, _, _, _, _), RepNN(_, _, _, _), RepFields(_, _, _, _)
 
 Rep(s, d, g, omit, dir) ==
@@ -92,7 +122,7 @@ RepNN(s, d, g, dir) ==
                          /\ \A i \in 1..Len(d.c) : \E j \in 1..Len(g.c) :
                                d.c[i].b = g.c[j].b /\ Rep(s.c[1], d.c[i].c[1], g.c[j].c[1], FALSE, dir)
     [] g.k = "struct" -> s.k = "record" /\ d.k = "record" /\ Len(d.c) = Len(s.c) /\ RepFields(s, d, g, dir)
-    [] g.k = "time"   -> s.k = "string" /\ d.k = "string"     \* the text is judged by TimeParse in Trace specs that import it
+    [] g.k = "time"   -> RepTime(s, d, g, dir)
     [] OTHER -> FALSE
 
 RepFields(s, d, g, dir) ==
